@@ -674,6 +674,8 @@ fn run_case(line: &str) -> String {
     let mut audit_budget: usize = std::env::var("AXH_CRASH_AUDIT").ok().and_then(|s| s.parse().ok()).unwrap_or(12);
     let mut strict_budget: usize = std::env::var("AXH_CRASH_STRICT").ok().and_then(|s| s.parse().ok()).unwrap_or(45);
     let mut strict_groups: Vec<(usize, String)> = Vec::new();
+    let mut torn_budget: usize = std::env::var("AXH_CRASH_TORN").ok().and_then(|s| s.parse().ok()).unwrap_or(30);
+    let mut torn_groups: Vec<(usize, String)> = Vec::new();
     for &k in &points {
         while applied < k {
             let e = &events[applied];
@@ -737,6 +739,46 @@ fn run_case(line: &str) -> String {
         match groups.last_mut() {
             Some((_, b, d)) if *d == desc => *b = k,
             _ => groups.push((k, k, desc)),
+        }
+        // third crash model: the last write is torn — only its first half reached the file
+        if torn_budget > 0 && k >= 1 && k % 3 == 0 {
+            if let IoEvent::Write { path, offset, data } = &events[k - 1] {
+                if data.len() >= 2 {
+                    torn_budget -= 1;
+                    let mut timg = Image::default();
+                    for e in &events[..k - 1] {
+                        timg.apply(e);
+                    }
+                    // the first half of the write arrived; what the file held before stays where the second half did not
+                    // arrive; alternately, the part of the second half that lies beyond the old end of the file is absent,
+                    // or the file was extended over it and it holds zeros
+                    let half = data.len() / 2;
+                    timg.apply(&IoEvent::Write { path: path.clone(), offset: *offset, data: data[..half].to_vec() });
+                    if (k / 3) % 2 == 1 {
+                        let end = *offset as usize + data.len();
+                        let f = timg.files.entry(fname(path)).or_default();
+                        if f.len() < end {
+                            f.resize(end, 0);
+                        }
+                    }
+                    let pr = observe_image(&timg, &tables, cfg, false, false);
+                    let acked_s = if acked.is_empty() { "-".to_string() } else { acked.iter().map(|u| u.to_string()).collect::<Vec<_>>().join(",") };
+                    torn_groups.push((
+                        k,
+                        format!(
+                            "acked={} infl={} ph={} open={} T={} again={} probe={} nest=- torn={}",
+                            acked_s,
+                            inflight.map(|u| u.to_string()).unwrap_or_else(|| "-".into()),
+                            ph,
+                            pr.open,
+                            if pr.tables.is_empty() { "-".into() } else { pr.tables },
+                            pr.again,
+                            pr.probe,
+                            ev_char(&events[k - 1]).unwrap_or('?')
+                        ),
+                    ));
+                }
+            }
         }
         // second crash model: nothing written since the file's last fsync survives (the first one keeps every write)
         if strict_budget > 0 {
@@ -843,6 +885,9 @@ fn run_case(line: &str) -> String {
     }
     for (k, d) in strict_groups {
         out.push_str(&format!(" | k=s{}-s{} {}", k, k, d));
+    }
+    for (k, d) in torn_groups {
+        out.push_str(&format!(" | k=t{}-t{} {}", k, k, d));
     }
     out.push_str(&format!(" ## points={} events={} trace={}", points.len(), events.len(), trace));
     out
